@@ -86,6 +86,20 @@ func mutationsFor(raw []byte, d *Decoded, limitPerClass int) []mutation {
 			})
 		}
 	}
+	// 3c. a page whose overflow count is raised by one so that its run swallows the following page, which is
+	//     itself reachable: that page is now referenced twice - once as a page, once as an overflow page
+	inTree := map[uint64]bool{}
+	for _, id := range tree {
+		inTree[id] = true
+	}
+	for _, id := range append(append([]uint64{}, leafs...), branches...) {
+		o := pageOff(id, ps)
+		ov := binary.LittleEndian.Uint32(raw[o+12:])
+		next := id + uint64(ov) + 1
+		if next < d.Hwm && inTree[next] && (d.Types[next] == "leaf" || d.Types[next] == "branch") {
+			add("overflow-overlap", fmt.Sprintf("pg%d-swallows-pg%d", id, next), func(raw []byte) { binary.LittleEndian.PutUint32(raw[o+12:], ov+1) })
+		}
+	}
 	// 6b. a page whose first key is below the separator its parent holds for it (but still above the left
 	//     sibling's keys): order relative to the PARENT is broken, order inside the page and between
 	//     neighbouring pages is not
@@ -268,7 +282,7 @@ func CheckC19(c *Ctx) int {
 	c.traces = len(events)
 	c.Cov["evaluations"] = len(events)
 	c.Cov["distinct_nontrivial"] = len(events)
-	c.Cov["rule"] = "one copy per (consistent file, corruption class, eligible page / element): unreachable-unfreed, reachable-free, referenced-twice (branch element and bucket root), freed-twice, invalid-type, key-order (adjacent elements swapped), separator-order (first key of a page lowered below its parent's separator); plus every unmutated file; Tx.Check (array and hash-map backend alternating) and `bbolt check` (exit status) are compared with Consistent(graph) evaluated by TLC; all cases distinct by construction"
+	c.Cov["rule"] = "one copy per (consistent file, corruption class, eligible page / element): unreachable-unfreed, reachable-free, referenced-twice (branch element and bucket root), overflow-overlap (a page's overflow count raised so that its run covers the next reachable page), freed-twice, invalid-type, key-order (adjacent elements swapped), separator-order (first key of a page lowered below its parent's separator); plus every unmutated file; Tx.Check (array and hash-map backend alternating) and `bbolt check` (exit status) are compared with Consistent(graph) evaluated by TLC; all cases distinct by construction"
 	return c.Finish(classifyC19)
 }
 
